@@ -20,15 +20,18 @@ Definition mon_ext (st' : state) : Prop :=
 Definition clean (st' : state) : Prop :=
   (forall n c, In (n, c) (st_own st') -> M c = false) /\
   (forall r, In r (st_rules st') -> M (fst r) = false) /\
-  (forall p, In p (st_pend st') -> M (p_get p) = false).
+  (forall p, In p (st_pend st') -> M (p_get p) = false) /\
+  (forall n c m, In (n, c, m) (st_held st') -> M c = false /\ b_sender m = SConn c).
 
 Definition item_good (it : item) : Prop :=
   i_local it = false /\
-  (forall x, M x = true ->
+  (i_resumed it = false -> forall x, M x = true ->
      copies x it = if wantsb (i_own it) true mr0 x (i_from it) (i_addr it) (i_msg it) then 1%nat else 0%nat) /\
+  (i_resumed it = true -> i_cap it = []) /\
   (forall r, i_direct it = Some r -> M r = false) /\
   (forall r, In r (i_match it) -> M r = false) /\
-  true_sender it.
+  true_sender it /\
+  (forall c, i_from it = Some c -> M c = false).
 
 Lemma mon_ext_same st' st'' :
   st_mons st'' = st_mons st' -> st_mrules st'' = st_mrules st' -> mon_ext st' -> mon_ext st''.
@@ -40,11 +43,12 @@ Lemma mk_item_good st' from addr m d mt :
   (forall r, d = Some r -> M r = false) ->
   (forall r, In r mt -> M r = false) ->
   (match from with Some c => b_sender m = SConn c | None => b_sender m = SDriver end) ->
+  (forall c, from = Some c -> M c = false) ->
   item_good (mk_item st' from addr m d mt).
 Proof.
-  intros [Hm Hw] Ha Hd Ht Hs. unfold item_good, mk_item, copies, true_sender; simpl.
-  split; [reflexivity|]. split; [|auto].
-  intros x Hx. unfold capture. pose proof (Hm x Hx) as Hmx. unfold is_monitor in Hmx.
+  intros [Hm Hw] Ha Hd Ht Hs Hf. unfold item_good, mk_item, copies, true_sender; simpl.
+  split; [reflexivity|]. split; [|split; [discriminate | repeat split; auto]].
+  intros _ x Hx. unfold capture. pose proof (Hm x Hx) as Hmx. unfold is_monitor in Hmx.
   destruct (st_mons st') as [|y ys] eqn:E; [discriminate|].
   rewrite count_get_recipients. rewrite (Hw x _ _ _ _ Hx).
   assert (Hne : (match addr with Some a => a =? x | None => false end) = false).
@@ -59,6 +63,7 @@ Proof.
   - intros x Hx E. inversion E; subst. congruence.
   - intros r'. destruct (connected st' r); intros E; inversion E; subst; auto.
   - intros ? [].
+  - discriminate.
 Qed.
 
 Lemma refusal_item_good st' from m :
@@ -68,6 +73,7 @@ Proof.
   - intros x Hx E. subst from. rewrite (Hf x eq_refl) in Hx. discriminate.
   - discriminate.
   - intros ? [].
+  - discriminate.
 Qed.
 
 Lemma fanout_good st' from addr m rs refused :
@@ -75,7 +81,7 @@ Lemma fanout_good st' from addr m rs refused :
   fanout st' from addr m = (rs, refused) ->
   (forall r, In r rs -> M r = false) /\ Forall item_good refused.
 Proof.
-  intros He (_ & Hr & _) Hf. unfold fanout.
+  intros He (_ & Hr & _ & _) Hf. unfold fanout.
   assert (G : forall r, In r (get_recipients (st_own st') false (st_rules st') from addr m) -> M r = false).
   { intros r H. unfold get_recipients in H. apply recips_owner in H. destruct H as (f & H & _). apply (Hr (r, f) H). }
   destruct ((match from with Some _ => deny_send m false | None => false end) || deny_recv m false); intros E; inversion E; subst.
@@ -94,17 +100,25 @@ Qed.
 
 Lemma clean_set_own_sub st' own' :
   clean st' -> (forall p, In p own' -> In p (st_own st')) -> clean (set_own st' own').
-Proof. intros (H1 & H2 & H3) Hs. split; [|split]; simpl; auto. intros n c H. apply (H1 n c). apply Hs; auto. Qed.
+Proof. intros (H1 & H2 & H3 & H4) Hs. split; [|split; [|split]]; simpl; auto. intros n c H. apply (H1 n c). apply Hs; auto. Qed.
 
 Lemma clean_set_own_add st' n c : clean st' -> M c = false -> clean (set_own st' (st_own st' ++ [(n, c)])).
 Proof.
-  intros (H1 & H2 & H3) Hc. split; [|split]; simpl; auto.
+  intros (H1 & H2 & H3 & H4) Hc. split; [|split; [|split]]; simpl; auto.
   intros k o H. apply in_app_or in H. destruct H as [H|[H|[]]]; [apply (H1 k o H)|]. inversion H; subst; auto.
 Qed.
 
 Lemma clean_set_pend st' pl :
   clean st' -> (forall p, In p pl -> In p (st_pend st') \/ M (p_get p) = false) -> clean (set_pend st' pl).
-Proof. intros (H1 & H2 & H3) Hs. split; [|split]; simpl; auto. intros p H. destruct (Hs p H); auto. Qed.
+Proof. intros (H1 & H2 & H3 & H4) Hs. split; [|split; [|split]]; simpl; auto. intros p H. destruct (Hs p H); auto. Qed.
+
+Lemma clean_set_held st' h :
+  clean st' -> (forall x, In x h -> In x (st_held st') \/ (M (snd (fst x)) = false /\ b_sender (snd x) = SConn (snd (fst x)))) ->
+  clean (set_held st' h).
+Proof.
+  intros (H1 & H2 & H3 & H4) Hs. split; [|split; [|split]]; simpl; auto.
+  intros n c m H. destruct (Hs _ H) as [K|K]; auto. apply (H4 n c m K).
+Qed.
 
 Lemma remove_owner_good st' c n :
   mon_ext st' -> clean st' -> M c = false -> Forall item_good (snd (remove_owner st' c n)).
@@ -139,11 +153,15 @@ Proof.
   intros He Hc. unfold noreply_items. simpl. apply Forall_forall. intros it H.
   apply in_map_iff in H. destruct H as (p & <- & Hp). unfold orphaned in Hp. apply filter_In in Hp. destruct Hp as [Hp _].
   apply from_driver_good; auto.
-  destruct Hc as (_ & _ & H3). apply H3; auto.
+  destruct Hc as (_ & _ & H3 & _). apply H3; auto.
 Qed.
 
-Lemma entry_item_good st' c m : mon_ext st' -> b_sender m = SConn c -> item_good (entry_item st' c m).
-Proof. intros He Hs. unfold entry_item. apply mk_item_good; auto; try discriminate. intros ? []. Qed.
+Lemma entry_item_good st' c m : mon_ext st' -> M c = false -> b_sender m = SConn c -> item_good (entry_item st' c m).
+Proof.
+  intros He Hm Hs. unfold entry_item. apply mk_item_good; auto; try discriminate.
+  - intros ? [].
+  - intros c' E. inversion E; subst; auto.
+Qed.
 
 Lemma error_reply_good st' c m e : mon_ext st' -> M c = false -> item_good (error_reply st' c m e).
 Proof. intros He Hm. unfold error_reply. apply from_driver_good; auto. Qed.
@@ -157,16 +175,85 @@ Proof.
   - destruct h as [s l]. simpl in *. constructor; [apply entry_item_good; auto | auto].
 Qed.
 
+Lemma deliver_good st' c r m resumed :
+  mon_ext st' -> clean st' -> M c = false -> M r = false -> b_sender m = SConn c ->
+  Forall item_good (snd (deliver st' c r m resumed)) /\ clean (fst (deliver st' c r m resumed)).
+Proof.
+  intros He Hc Hm Hr Hs. rewrite deliver_state. unfold deliver.
+  assert (Hfrom : forall c', Some c = Some c' -> M c' = false) by (intros c' E; inversion E; subst; auto).
+  assert (Ha : forall x, M x = true -> Some r <> Some x) by (intros x Hx E; inversion E; subst; congruence).
+  destruct (check_policy (st_pend st') c r m) as [pl v] eqn:Ec. cbv zeta. simpl fst.
+  assert (He' : mon_ext (set_pend st' pl)) by (apply (mon_ext_same st'); auto).
+  assert (Hc' : clean (set_pend st' pl)).
+  { apply clean_set_pend; auto. intros p Hp.
+    destruct (check_policy_sub _ _ _ _ _ _ Ec p Hp) as [H | ->]; [left; auto | right; auto]. }
+  split; auto.
+  assert (It : forall d mt, (forall r', d = Some r' -> M r' = false) -> (forall r', In r' mt -> M r' = false) ->
+               item_good (if resumed then mkItem (st_own st') (Some c) (Some r) m false [] d mt true
+                          else mk_item st' (Some c) (Some r) m d mt)).
+  { intros d mt Hd Ht. destruct resumed.
+    - unfold item_good, true_sender. simpl. repeat split; auto; discriminate.
+    - apply mk_item_good; auto. }
+  destruct v as [e|].
+  - simpl. constructor; [apply It; [discriminate | intros ? []]|].
+    constructor; [apply error_reply_good; auto | constructor].
+  - destruct (fanout (set_pend st' pl) (Some c) (Some r) m) as [rs refused] eqn:E. simpl.
+    destruct (fanout_good _ _ _ _ _ _ He' Hc' Hfrom E) as [H1 H2].
+    constructor; auto. apply It; auto. intros r' E'. inversion E'; subst; auto.
+Qed.
+
+Lemma resume_all_good r l : forall st',
+  mon_ext st' -> clean st' -> M r = false ->
+  (forall n c m, In (n, c, m) l -> M c = false /\ b_sender m = SConn c) ->
+  Forall item_good (snd (resume_all st' r l)) /\ clean (fst (resume_all st' r l)) /\ mon_ext (fst (resume_all st' r l)).
+Proof.
+  induction l as [|[[n c] m] l IH]; intros st' He Hc Hr Hl; simpl; [split; [constructor | split; auto]|].
+  assert (Hl' : forall n' c' m', In (n', c', m') l -> M c' = false /\ b_sender m' = SConn c').
+  { intros n' c' m' H. apply (Hl n' c' m'). right; auto. }
+  destruct (connected st' c); [|apply IH; auto].
+  destruct (Hl n c m (or_introl eq_refl)) as [Hm Hs].
+  destruct (deliver_good st' c r m true He Hc Hm Hr Hs) as [G1 G2].
+  pose proof (deliver_state st' c r m true) as Hst.
+  destruct (deliver st' c r m true) as [st1 i1]. simpl in *.
+  assert (He1 : mon_ext st1) by (subst st1; apply (mon_ext_same st'); auto).
+  destruct (IH st1 He1 G2 Hr Hl') as (K1 & K2 & K3).
+  destruct (resume_all st1 r l) as [st2 i2]. simpl in *. split; [apply Forall_app; auto | split; auto].
+Qed.
+
+Lemma release_held_good st' nm :
+  mon_ext st' -> clean st' ->
+  Forall item_good (snd (release_held st' nm)) /\ clean (fst (release_held st' nm)) /\ mon_ext (fst (release_held st' nm)).
+Proof.
+  intros He Hc. unfold release_held. destruct (primary (st_own st') nm) as [r|] eqn:Ep; [|simpl; split; [constructor | split; auto]].
+  apply resume_all_good.
+  - apply (mon_ext_same st'); auto.
+  - apply clean_set_held; auto. intros x H. apply filter_In in H. tauto.
+  - destruct Hc as (H1 & _). apply (H1 nm r). apply primary_In; auto.
+  - intros n c m H. apply filter_In in H. destruct H as [H _]. destruct Hc as (_ & _ & _ & H4). apply (H4 n c m H).
+Qed.
+
 Lemma request_name_good st' c s n dnq :
   mon_ext st' -> clean st' -> M c = false -> Forall item_good (snd (request_name st' c s n dnq)).
 Proof.
   intros He Hc Hm. unfold request_name.
+  assert (G : forall st1 (l : list item) (code : N), mon_ext st1 -> clean st1 -> Forall item_good l ->
+              Forall item_good (snd (let '(st'', l2) := release_held st1 (NWk n) in
+                                     (st'', l ++ l2 ++ [from_driver st'' c (reply_msg c s [ANum code])])))).
+  { intros st1 l code He1 Hc1 Hl. destruct (release_held_good st1 (NWk n) He1 Hc1) as (K1 & K2 & K3).
+    destruct (release_held st1 (NWk n)) as [st'' l2]. simpl in *.
+    apply Forall_app. split; auto. apply Forall_app. split; auto.
+    constructor; [apply from_driver_good; auto | constructor]. }
   destruct (queue (st_own st') (NWk n)) as [|p q] eqn:Eq.
-  - simpl. constructor; [apply noc_item_good; auto|]. constructor; [apply from_driver_good; auto|].
-    constructor; [|constructor]. apply from_driver_good; auto.
-  - destruct (p =? c); [simpl; constructor; [apply from_driver_good; auto | constructor]|].
-    destruct dnq; [simpl; constructor; [apply from_driver_good; auto; apply (mon_ext_same st'); auto | constructor]|].
-    destruct (memN c (p :: q)); simpl; (constructor; [apply from_driver_good; auto; apply (mon_ext_same st'); auto | constructor]).
+  - apply G.
+    + apply (mon_ext_same st'); auto.
+    + apply clean_set_own_add; auto.
+    + constructor; [apply noc_item_good; auto|]. constructor; [apply from_driver_good; auto | constructor].
+  - destruct (p =? c); [apply G; auto; constructor|].
+    destruct dnq.
+    + apply G; [apply (mon_ext_same st'); auto | | constructor].
+      apply clean_set_own_sub; auto. intros [k o] H. apply unlink_In in H. tauto.
+    + destruct (memN c (p :: q)); [apply G; auto; constructor|].
+      apply G; [apply (mon_ext_same st'); auto | apply clean_set_own_add; auto | constructor].
 Qed.
 
 Lemma release_name_good st' c s n :
@@ -195,6 +282,17 @@ Proof.
   constructor; [apply error_reply_good; auto | constructor].
 Qed.
 
+Lemma no_owner_good st' c d m :
+  mon_ext st' -> M c = false -> b_sender m = SConn c -> Forall item_good (snd (no_owner st' c d m)).
+Proof.
+  intros He Hm Hs. unfold no_owner.
+  destruct (b_noauto m); [simpl; constructor; [apply entry_item_good; auto|]; constructor; [apply error_reply_good; auto | constructor]|].
+  destruct (negb (activatable d)); [simpl; constructor; [apply entry_item_good; auto|]; constructor; [apply error_reply_good; auto | constructor]|].
+  destruct (deny_send m false); simpl.
+  - constructor; [apply entry_item_good; auto|]. constructor; [apply error_reply_good; auto | constructor].
+  - constructor; [apply entry_item_good; auto | constructor].
+Qed.
+
 Lemma dispatch_good st' c m :
   mon_ext st' -> clean st' -> M c = false -> b_sender m = SConn c -> Forall item_good (snd (dispatch st' c m)).
 Proof.
@@ -205,31 +303,11 @@ Proof.
       destruct (fanout_good _ _ _ _ _ _ He Hc Hfrom E) as [H1 H2].
       constructor; auto. apply mk_item_good; auto; discriminate. }
   assert (G : forall d', Forall item_good (snd (match primary (st_own st') d' with
-      | None => (st', [entry_item st' c m; error_reply st' c m (if b_noauto m then E_NAME_HAS_NO_OWNER else E_SERVICE_UNKNOWN)])
-      | Some r =>
-          let '(pl, verdict) := check_policy (st_pend st') c r m in
-          let st'' := set_pend st' pl in
-          match verdict with
-          | Some e => (st'', [mk_item st' (Some c) (Some r) m None []; error_reply st'' c m e])
-          | None => let '(rs, refused) := fanout st'' (Some c) (Some r) m in
-                    (st'', mk_item st' (Some c) (Some r) m (Some r) rs :: refused)
-          end
-      end))).
-  { intros d'. destruct (primary (st_own st') d') as [r|] eqn:Ep.
-    2:{ simpl. constructor; [apply entry_item_good; auto|]. constructor; [apply error_reply_good; auto | constructor]. }
-    assert (Hr : M r = false). { destruct Hc as (H1 & _). apply (H1 d' r). apply primary_In; auto. }
-    assert (Ha : forall x, M x = true -> Some r <> Some x) by (intros x Hx E; inversion E; subst; congruence).
-    destruct (check_policy (st_pend st') c r m) as [pl v] eqn:Ec. cbv zeta.
-    assert (He' : mon_ext (set_pend st' pl)) by (apply (mon_ext_same st'); auto).
-    assert (Hc' : clean (set_pend st' pl)).
-    { apply clean_set_pend; auto. intros p Hp.
-      destruct (check_policy_sub _ _ _ _ _ _ Ec p Hp) as [H | ->]; [left; auto | right; auto]. }
-    destruct v as [e|].
-    - simpl. constructor; [apply mk_item_good; auto; try discriminate; intros ? []|].
-      constructor; [apply error_reply_good; auto | constructor].
-    - destruct (fanout (set_pend st' pl) (Some c) (Some r) m) as [rs refused] eqn:E. simpl.
-      destruct (fanout_good _ _ _ _ _ _ He' Hc' Hfrom E) as [H1 H2].
-      constructor; auto. apply mk_item_good; auto. intros r' E'. inversion E'; subst; auto. }
+                                               | None => no_owner st' c d' m
+                                               | Some r => deliver st' c r m false
+                                               end))).
+  { intros d'. destruct (primary (st_own st') d') as [r|] eqn:Ep; [|apply no_owner_good; auto].
+    apply deliver_good; auto. destruct Hc as (H1 & _). apply (H1 d' r). apply primary_In; auto. }
   destruct d as [|u|w].
   - apply to_driver_good; auto. apply driver_generic_good; auto.
   - apply G.
@@ -244,7 +322,7 @@ Proof.
                       (drop_rules (st_rules st') c) (st_mrules st') (st_mons st') (st_pend st')).
   assert (He1 : mon_ext st1) by (apply (mon_ext_same st'); auto).
   assert (Hc1 : clean st1).
-  { destruct Hc as (H1 & H2 & H3). split; [|split]; simpl; auto.
+  { destruct Hc as (H1 & H2 & H3 & H4). split; [|split; [|split]]; simpl; auto.
     intros r H. unfold drop_rules in H. apply filter_In in H. apply H2. tauto. }
   destruct (release_all st1 c (rev (owned (st_own st1) c))) as [st2 rel] eqn:E2.
   destruct (noreply_items st2 c) as [st3 nr] eqn:E3. simpl.
@@ -285,19 +363,31 @@ Proof.
       - subst st3 st2. destruct He1 as [H1 H3]. split; simpl.
         + intros x Hx. specialize (H1 x Hx). unfold is_monitor in *. simpl in *. rewrite memN_app, H1. reflexivity.
         + intros x own from addr m Hx. apply (H3 x own from addr m Hx).
-      - subst st3 st2. destruct Hc1 as (K1 & K2 & K3). split; [|split]; simpl; auto.
+      - subst st3 st2. destruct Hc1 as (K1 & K2 & K3 & K4). split; [|split; [|split]]; simpl; auto.
         + intros k o H. apply unlink_all_In in H. apply (K1 k o). tauto.
         + intros r H. unfold drop_rules in H. apply filter_In in H. apply K2. tauto. }
     rewrite E4 in H. exact H.
 Qed.
 
-Lemma connect_good st' :
-  mon_ext st' -> clean st' -> M (st_next st') = false -> Forall item_good (snd (connect st')).
+Lemma become_monitor_call_good st' c s so fl rs :
+  mon_ext st' -> clean st' -> M c = false -> Forall item_good (snd (become_monitor_call st' c s so fl rs)).
+Proof.
+  intros He Hc Hm. unfold become_monitor_call.
+  destruct (memN c (st_unpriv st')); [simpl; constructor; [apply error_reply_good; auto | constructor]|].
+  destruct (negb so); [simpl; constructor; [apply error_reply_good; auto | constructor]|].
+  destruct (negb (fl =? 0)); [simpl; constructor; [apply error_reply_good; auto | constructor]|].
+  destruct (parse_all rs); [apply become_monitor_good; auto|].
+  simpl; constructor; [apply error_reply_good; auto | constructor].
+Qed.
+
+Lemma connect_good st' priv :
+  mon_ext st' -> clean st' -> M (st_next st') = false -> Forall item_good (snd (connect st' priv)).
 Proof.
   intros He Hc Hm. unfold connect. simpl.
   set (st1 := upd st' (st_conns st' ++ [st_next st']) (st_next st' + 1) (st_own st') (st_rules st') (st_mrules st') (st_mons st') (st_pend st')).
   assert (He1 : mon_ext st1) by (apply (mon_ext_same st'); auto).
-  constructor; [apply mk_item_good; auto; try discriminate; intros ? []|].
+  constructor.
+  { apply mk_item_good; auto; try discriminate; [intros ? [] | intros c' E; inversion E; subst; auto]. }
   constructor; [apply from_driver_good; auto|].
   constructor; [apply noc_item_good; auto|].
   constructor; [apply from_driver_good; auto | constructor].
@@ -311,17 +401,18 @@ Proof. split; auto. Qed.
 
 Lemma clean_Inv st : Inv st -> clean (is_monitor st) st.
 Proof.
-  intros I. split; [|split].
+  intros I. split; [|split; [|split]].
   - intros n c H. apply (own_ok _ I) in H. tauto.
   - apply (rules_ok _ I).
   - intros p H. apply (pend_ok _ I) in H. tauto.
+  - apply (held_ok _ I).
 Qed.
 
-Lemma local_items_local st c m : Forall (fun it => i_local it = true) (local_items st c m).
+Lemma local_items_local st c m : Forall (fun it => i_local it = true /\ i_resumed it = false) (local_items st c m).
 Proof. unfold local_items. destruct (local_answer m); repeat constructor. Qed.
 
 Definition step_items_ok (st : state) (l : list item) : Prop :=
-  Forall (fun it => i_local it = true) l \/ Forall (item_good (is_monitor st) (st_mrules st)) l.
+  Forall (fun it => i_local it = true /\ i_resumed it = false) l \/ Forall (item_good (is_monitor st) (st_mrules st)) l.
 
 Theorem step_good st e : Inv st -> step_items_ok st (snd (step st e)).
 Proof.
@@ -331,7 +422,7 @@ Proof.
   unfold step. destruct (wf_event st e) eqn:W; simpl; [|right; constructor].
   assert (D : forall c, is_monitor st c = true -> step_items_ok st (snd (disconnect st c))).
   { intros c Hm. unfold disconnect. rewrite Hm. simpl. right; constructor. }
-  destruct e as [|c|c m|c s n dnq|c s n|c s f|c s|c s fs]; simpl in W.
+  destruct e as [priv|c|c m|c s n dnq|c s n|c s f|c s|c s so fl rs]; simpl in W.
   - right. apply connect_good; auto.
   - destruct (is_monitor st c) eqn:Em; [apply D; auto|]. right. apply disconnect_ordinary_good; auto.
   - simpl. destruct (peer_local (stamp c m)); [left; apply local_items_local|].
@@ -346,50 +437,69 @@ Proof.
   - simpl. destruct (is_monitor st c) eqn:Em; [apply D; auto|]. right.
     apply to_driver_good; auto. apply get_id_good; auto.
   - simpl. destruct (is_monitor st c) eqn:Em; [apply D; auto|]. right.
-    apply to_driver_good; auto. apply become_monitor_good; auto.
+    apply to_driver_good; auto. apply become_monitor_call_good; auto.
 Qed.
 
 Lemma step_item_good st e it :
   Inv st -> In it (snd (step st e)) -> i_local it = false -> item_good (is_monitor st) (st_mrules st) it.
 Proof.
   intros I Hin Hl. destruct (step_good st e I) as [H|H]; rewrite Forall_forall in H.
-  - rewrite (H it Hin) in Hl. discriminate.
+  - destruct (H it Hin) as [H1 _]. rewrite H1 in Hl. discriminate.
   - apply H; auto.
 Qed.
 
 (* ---------------------------------------------------------------- the clauses of the property *)
 Theorem sees_once st e x it :
-  reachable st -> is_monitor st x = true -> In it (snd (step st e)) -> i_local it = false ->
+  creachable st -> is_monitor st x = true -> In it (snd (step st e)) -> i_local it = false -> i_resumed it = false ->
   sees_once_at st x it /\ true_sender it.
 Proof.
-  intros R Hx Hin Hl. pose proof (step_item_good st e it (Inv_reachable st R) Hin Hl) as (_ & Hc & _ & _ & Hs).
-  split; auto. unfold sees_once_at. rewrite <- wantsb_spec. specialize (Hc x Hx).
+  intros R Hx Hin Hl Hr. pose proof (step_item_good st e it (Inv_creachable st R) Hin Hl) as (_ & Hc & _ & _ & _ & Hs & _).
+  split; auto. unfold sees_once_at. rewrite <- wantsb_spec. specialize (Hc Hr x Hx).
   destruct (wantsb (i_own it) true (st_mrules st) x (i_from it) (i_addr it) (i_msg it)); split; intros H; auto; try congruence;
     try (exfalso; apply H; reflexivity).
 Qed.
 
+(* a held message whose dispatch is resumed is not captured a second time, and still bears its sender *)
+Theorem resumed_no_copy st e it :
+  creachable st -> In it (snd (step st e)) -> i_resumed it = true -> i_cap it = [] /\ true_sender it.
+Proof.
+  intros R Hin Hr. destruct (step_good st e (Inv_creachable st R)) as [H|H]; rewrite Forall_forall in H.
+  - destruct (H it Hin) as [_ H2]. congruence.
+  - destruct (H it Hin) as (_ & _ & Hc & _ & _ & Hs & _). split; auto.
+Qed.
+
 Theorem never_addressee st e x it :
-  reachable st -> is_monitor st x = true -> In it (snd (step st e)) -> i_local it = false ->
+  creachable st -> is_monitor st x = true -> In it (snd (step st e)) -> i_local it = false ->
   i_direct it <> Some x /\ ~ In x (i_match it).
 Proof.
-  intros R Hx Hin Hl. pose proof (step_item_good st e it (Inv_reachable st R) Hin Hl) as (_ & _ & Hd & Hm & _).
+  intros R Hx Hin Hl. pose proof (step_item_good st e it (Inv_creachable st R) Hin Hl) as (_ & _ & _ & Hd & Hm & _).
   split.
   - intros E. rewrite (Hd x E) in Hx. discriminate.
   - intros H. rewrite (Hm x H) in Hx. discriminate.
 Qed.
 
+(* nothing is routed from a monitor *)
+Theorem nothing_routed_from_monitor st e x it :
+  creachable st -> is_monitor st x = true -> In it (snd (step st e)) -> i_local it = false -> i_from it <> Some x.
+Proof.
+  intros R Hx Hin Hl. pose proof (step_item_good st e it (Inv_creachable st R) Hin Hl) as (_ & _ & _ & _ & _ & _ & Hf).
+  intros E. rewrite (Hf x E) in Hx. discriminate.
+Qed.
+
 (* a monitor's total for an item is what its filter says: nothing reaches it any other way *)
 Theorem once_total_old_monitor st e x it :
-  reachable st -> is_monitor st x = true -> In it (snd (step st e)) -> i_local it = false -> (total x it <= 1)%nat.
+  creachable st -> is_monitor st x = true -> In it (snd (step st e)) -> i_local it = false -> (total x it <= 1)%nat.
 Proof.
-  intros R Hx Hin Hl. pose proof (step_item_good st e it (Inv_reachable st R) Hin Hl) as (_ & Hc & Hd & Hm & _).
-  unfold total. specialize (Hc x Hx).
+  intros R Hx Hin Hl. pose proof (step_item_good st e it (Inv_creachable st R) Hin Hl) as (_ & Hc & Hrs & Hd & Hm & _).
+  unfold total.
   assert (H1 : (match i_direct it with Some r => if r =? x then 1 else 0 | None => 0 end = 0)%nat).
   { destruct (i_direct it) as [r|] eqn:E; auto. destruct (r =? x) eqn:E2; auto. apply N.eqb_eq in E2. subst.
     rewrite (Hd x eq_refl) in Hx. discriminate. }
   assert (H2 : count_occ N.eq_dec (i_match it) x = 0%nat).
   { apply count_occ_not_In. intros H. rewrite (Hm x H) in Hx. discriminate. }
-  rewrite H1, H2, Hc. destruct (wantsb (i_own it) true (st_mrules st) x (i_from it) (i_addr it) (i_msg it)); lia.
+  rewrite H1, H2. destruct (i_resumed it) eqn:Er.
+  - unfold copies. rewrite (Hrs eq_refl). simpl. lia.
+  - rewrite (Hc eq_refl x Hx). destruct (wantsb (i_own it) true (st_mrules st) x (i_from it) (i_addr it) (i_msg it)); lia.
 Qed.
 
 (* ---------------------------------------------------------------- "is disconnected if it sends anything" *)
@@ -413,35 +523,60 @@ Proof.
 Qed.
 
 (* ---------------------------------------------------------------- "owns no names ... loses its ordinary match rules" *)
-Theorem owns_nothing st x n : reachable st -> is_monitor st x = true -> ~ in_queue (st_own st) n x.
+Theorem owns_nothing st x n : creachable st -> is_monitor st x = true -> ~ in_queue (st_own st) n x.
 Proof.
-  intros R Hx H. apply (own_ok _ (Inv_reachable st R)) in H. destruct H as [_ H]. congruence.
+  intros R Hx H. apply (own_ok _ (Inv_creachable st R)) in H. destruct H as [_ H]. congruence.
 Qed.
 
-Theorem no_ordinary_rules st x f : reachable st -> is_monitor st x = true -> ~ In (x, f) (st_rules st).
+Theorem no_ordinary_rules st x f : creachable st -> is_monitor st x = true -> ~ In (x, f) (st_rules st).
 Proof.
-  intros R Hx H. apply (rules_ok _ (Inv_reachable st R)) in H. simpl in H. congruence.
+  intros R Hx H. apply (rules_ok _ (Inv_creachable st R)) in H. simpl in H. congruence.
 Qed.
 
 Theorem no_pending_replies st x p :
-  reachable st -> is_monitor st x = true -> In p (st_pend st) -> p_get p <> x /\ p_send p <> Some x.
+  creachable st -> is_monitor st x = true -> In p (st_pend st) -> p_get p <> x /\ p_send p <> Some x.
 Proof.
-  intros R Hx H. apply (pend_ok _ (Inv_reachable st R)) in H. destruct H as [H1 H2]. split.
+  intros R Hx H. apply (pend_ok _ (Inv_creachable st R)) in H. destruct H as [H1 H2]. split.
   - intros E. rewrite E in H1. congruence.
   - intros E. rewrite (H2 x E) in Hx. discriminate.
 Qed.
 
+(* ---------------------------------------------------------------- BecomeMonitor is all or nothing *)
+Definition refusal_code (st : state) (c : cid) (so : bool) (fl : N) : N :=
+  if memN c (st_unpriv st) then E_ACCESS_DENIED
+  else if negb so then E_INVALID_ARGS
+  else if negb (fl =? 0) then E_INVALID_ARGS
+  else E_MATCH_RULE_INVALID.
+
+(* unprivileged caller, wrong signature, a flag set, or a rule that does not parse (wherever it stands in the
+   array): the state is EXACTLY as before and the only things produced are the call (for monitors) and one error *)
+Theorem switch_refused st c s so fl rs :
+  ordinary st c -> s <> 0 -> refused st c so fl rs ->
+  let m := call_msg c s I_MONITORING M_BECOME_MONITOR in
+  step st (EBecomeMonitor c s so fl rs) = (st, [entry_item st c m; error_reply st c m (refusal_code st c so fl)]).
+Proof.
+  intros [Hc Hm] Hs Hr. unfold step. simpl. rewrite Hc. apply N.eqb_neq in Hs. rewrite Hs. simpl. rewrite Hm.
+  unfold to_driver. simpl. unfold become_monitor_call, refusal_code.
+  destruct (memN c (st_unpriv st)) eqn:Eu; [reflexivity|].
+  destruct so; simpl; [|reflexivity].
+  destruct (fl =? 0) eqn:Ef; simpl; [|reflexivity].
+  destruct (parse_all rs) as [fs|] eqn:Ep; [|reflexivity].
+  exfalso. destruct Hr as [H|[H|[H|H]]]; try congruence.
+  - apply N.eqb_eq in Ef. auto.
+  - apply parse_all_None in H. congruence.
+Qed.
+
 (* what the switch does to the connection *)
-Theorem switch_effect st c s fs :
-  reachable st -> ordinary st c -> s <> 0 ->
-  let st' := fst (step st (EBecomeMonitor c s fs)) in
+Theorem switch_effect st c s rs fs :
+  ordinary st c -> s <> 0 -> memN c (st_unpriv st) = false -> parse_all rs = Some fs ->
+  let st' := fst (step st (EBecomeMonitor c s true 0 rs)) in
   is_monitor st' c = true /\ connected st' c = true /\
   owned (st_own st') c = [] /\ (forall f, ~ In (c, f) (st_rules st')) /\
   (forall p, In p (st_pend st') -> involves c p = false) /\
   (forall f, In (c, f) (st_mrules st') <-> In (c, f) (st_mrules st) \/ In f (match fs with [] => [empty_filter] | _ => fs end)).
 Proof.
-  intros R [Hc Hm] Hs. unfold step. simpl. rewrite Hc. apply N.eqb_neq in Hs. rewrite Hs. simpl. rewrite Hm.
-  unfold to_driver. simpl.
+  intros [Hc Hm] Hs Hu Hp. unfold step. simpl. rewrite Hc. apply N.eqb_neq in Hs. rewrite Hs. simpl. rewrite Hm.
+  unfold to_driver. simpl. unfold become_monitor_call. rewrite Hu, Hp. simpl.
   unfold become_monitor.
   set (fs' := match fs with [] => [empty_filter] | _ => fs end).
   set (st1 := upd st (st_conns st) (st_next st) (st_own st) (st_rules st)
